@@ -100,9 +100,11 @@ func (fr *Frame) callFunc(v ssa.Value, f *ssa.Function, args []Val, bind []Val, 
 			key = f.Origin().String()
 		}
 	}
-	if r, ok := fr.wireNative(f, args, in); ok {
-		fr.setRes(v, r)
-		return
+	if !ex.kernelMode {
+		if r, ok := fr.wireNative(f, args, in); ok {
+			fr.setRes(v, r)
+			return
+		}
 	}
 	if r, ok := fr.nativeCall(f, args, in); ok {
 		fr.setRes(v, r)
@@ -359,15 +361,17 @@ func (fr *Frame) havocTarget(f *ssa.Function, target string, args []Val, in ssa.
 			path := a.Path
 			elem := a.Elem
 			if field != "" {
-				fp, ft, ok := fieldPathByName(elem, field)
-				if !ok {
-					fr.ex.oos("modifies %s: no such field", target)
-					return
+				for _, fname := range strings.Split(field, ".") {
+					fp, ft, ok := fieldPathByName(elem, fname)
+					if !ok {
+						fr.ex.oos("modifies %s: no such field", target)
+						return
+					}
+					for _, fi := range fp {
+						path = append(append([]PathEl{}, path...), PathEl{Field: fi})
+					}
+					elem = ft
 				}
-				for _, fi := range fp {
-					path = append(append([]PathEl{}, path...), PathEl{Field: fi})
-				}
-				elem = ft
 			}
 			nv := fr.freshOfType(elem, "havoc:"+name)
 			if nv == nil {
@@ -444,6 +448,47 @@ func (fr *Frame) nativeCall(f *ssa.Function, args []Val, in ssa.Instruction) (Va
 		ex.assume(fr.cur, Eq(Add(parts...), vt))
 		ex.Trusted["encoding/binary.ByteOrder.PutUint64 (writes the 8 bytes whose positional value is v)"] = true
 		return TupleV{}, true
+	case "io.ReadFull":
+		// io.ReadFull(&lr, buf) on an *io.LimitedReader held in a local cell: reads k bytes,
+		// 0 <= k <= min(len(buf), max(lr.N,0)); lr.N -= k; err == nil iff k == len(buf).
+		// Assumes the wrapped reader honours the io.Reader contract (0 <= n <= len(p)).
+		iv, ok := args[0].(IfaceV)
+		if !ok {
+			return nil, false
+		}
+		pv, ok := iv.Dyn.(PtrV)
+		sv, ok2 := args[1].(SliceV)
+		if !ok || !ok2 || typeKey(pv.Elem) != "io.LimitedReader" {
+			return nil, false
+		}
+		fp, ft, ok := fieldPathByName(pv.Elem, "N")
+		if !ok {
+			return nil, false
+		}
+		npath := append([]PathEl{}, pv.Path...)
+		for _, fi := range fp {
+			npath = append(npath, PathEl{Field: fi})
+		}
+		np := PtrV{Cell: pv.Cell, Path: npath, Elem: ft}
+		N := fr.load(np)
+		ln := Sub(sv.Hi, sv.Lo)
+		k := Fresh("read", SInt)
+		ex.assume(fr.cur, And(Le(IntC(0), k), Le(k, ln), Or(Le(k, N), Eq(k, IntC(0)))))
+		fr.store(np, Sub(N, k))
+		old := fr.readPath(sv.Cell, sv.Path)
+		nv := Fresh("havoc:readbuf", old.Sort)
+		kk := Sym("$k!frame", SInt)
+		ex.assume(fr.cur, Forall([]*Term{kk}, Implies(Or(Lt(kk, sv.Lo), Ge(kk, sv.Hi)), Eq(Select(nv, kk), Select(old, kk)))))
+		ex.assume(fr.cur, Forall([]*Term{kk}, And(Le(IntC(0), Select(nv, kk)), Le(Select(nv, kk), IntC(255)))))
+		if len(sv.Path) == 0 && sv.Cell.Dyn {
+			fr.mem[sv.Cell] = nv
+		} else {
+			fr.store(PtrV{Cell: sv.Cell, Path: sv.Path}, nv)
+		}
+		errT := types.Universe.Lookup("error").Type()
+		ex.errSite++
+		ex.Trusted["io.ReadFull on io.LimitedReader (reads k <= min(len(buf), N) bytes, N -= k, err == nil iff k == len(buf); wrapped reader honours io.Reader)"] = true
+		return TupleV{TV{k, types.Typ[types.Int]}, TV{Ite(Eq(k, ln), IntC(0), IntC(int64(1000 + ex.errSite))), errT}}, true
 	case "bytes.Compare":
 		at, ok1 := fr.term(args[0])
 		bt, ok2 := fr.term(args[1])
@@ -598,6 +643,15 @@ func (fr *Frame) execAppend(v ssa.Value, c *ssa.CallCommon, args []Val, in ssa.I
 func (fr *Frame) execCopy(v ssa.Value, c *ssa.CallCommon, args []Val, in ssa.Instruction) {
 	dst, ok := args[0].(SliceV)
 	src, ok2 := fr.term(args[1])
+	if dt, okT := fr.term(args[0]); !ok && okT && ok2 && isSliceSort(dt.Sort) && fr.modifiesSliceParam() {
+		// destination is (a window of) a slice parameter the contract lists under modifies: the
+		// caller sees it havoced; this body never reads it back (checked: no load from a parameter
+		// slice is modelled after this point other than its entry contents -> noted)
+		fr.ex.note("%s: bytes copied into a slice parameter are not tracked inside the body (the contract's modifies clause havocs it at call sites)", shortName(fr.fn.String()))
+		dl, sl := SliceLen(dt), SliceLen(src)
+		fr.setRes(v, TV{Ite(Le(dl, sl), dl, sl), types.Typ[types.Int]})
+		return
+	}
 	if !ok || !ok2 {
 		fr.ex.oos("%s: copy into non-local slice at %s", shortName(fr.fn.String()), fr.pos(in))
 		if v != nil {
@@ -619,4 +673,21 @@ func (fr *Frame) execCopy(v ssa.Value, c *ssa.CallCommon, args []Val, in ssa.Ins
 		fr.store(PtrV{Cell: dst.Cell, Path: dst.Path}, nv)
 	}
 	fr.setRes(v, TV{n, types.Typ[types.Int]})
+}
+
+// modifiesSliceParam: the frame's function lists a slice-typed parameter under modifies.
+func (fr *Frame) modifiesSliceParam() bool {
+	if fr.con == nil {
+		return false
+	}
+	for _, m := range fr.con.Modifies {
+		for _, p := range fr.fn.Params {
+			if p.Name() == m {
+				if _, ok := p.Type().Underlying().(*types.Slice); ok {
+					return true
+				}
+			}
+		}
+	}
+	return false
 }
